@@ -49,7 +49,30 @@ fn probe_image(image: Vec<u8>, cfg: &Config, cx: &redb_verif_harness::codec::Ctx
             Err(e) => json!({"error": redb_verif_harness::exec::err_name(&e)}),
         };
         let same = obs2 == obs;
-        json!({"obs": obs, "integ": integ, "same": same})
+        let mut out = json!({"obs": obs, "integ": integ, "same": same});
+        if record {
+            // sampled images: the allocation state right after recovery must be exactly what the
+            // contents require (C11), and writing must not damage what is there
+            out["acct"] = redb_verif_harness::exec::account(&db, store.len());
+            let write_ok = (|| -> Result<bool, redb::Error> {
+                let w = db.begin_write()?;
+                {
+                    let mut t = w.open_table(redb::TableDefinition::<u64, u64>::new("zz_probe"))?;
+                    for k in 0..50u64 {
+                        t.insert(k, k)?;
+                    }
+                }
+                w.commit()?;
+                let obs3 = observe(&db, cx)?;
+                let mut tables: Vec<J> = obs3["tables"].as_array().unwrap().iter().filter(|t| t["name"] != "zz_probe").cloned().collect();
+                tables.sort_by_key(|t| t["name"].to_string());
+                let mut before: Vec<J> = obs["tables"].as_array().unwrap().clone();
+                before.sort_by_key(|t| t["name"].to_string());
+                Ok(tables == before && obs3["psp"] == obs["psp"])
+            })();
+            out["write_ok"] = json!(write_ok.unwrap_or(false));
+        }
+        out
     }));
     let j = match res {
         Ok(j) => j,
@@ -230,7 +253,7 @@ fn main() {
                         let (outcome, rec) = probe_image(image, &cfg, &cx, do_second);
                         images.fetch_add(1, Ordering::Relaxed);
                         let (ev_idx, after) = owner[p.c];
-                        let mut add = |outcome: J, depth: u8, inner: J| {
+                        let add = |outcome: J, depth: u8, inner: J| {
                             let key = format!("{ev_idx}|{after}|{outcome}");
                             let mut f = found.lock().unwrap();
                             f.entry(key)
@@ -334,6 +357,7 @@ fn main() {
         {
             let mut p = probe_event(f);
             p.as_object_mut().unwrap().remove("obs");
+            p.as_object_mut().unwrap().remove("acct");
             samples.push(p);
         }
         if let Some(sw) = scripts.as_mut() {
